@@ -53,8 +53,14 @@ def variant_cfg(flags):
 
 def identity_violations(rec):
     v = []
+    # a cysteine that is bridged in some conformations only enters the average with 99.99 for those: excepted like
+    # every bridged cysteine
+    bridged_somewhere = {g["label"] for c, conf in rec["confs"].items() if c != "AVR" for g in conf["groups"]
+                         if g["bridge"]}
     for c, conf in rec["confs"].items():
         for g in conf["groups"]:
+            if c == "AVR" and g["type"] == "CYS" and g["label"] in bridged_somewhere:
+                continue
             total = g["model_pka"] + g["evol"] + g["eloc"]
             for t in observe.DET_TYPES:
                 for _k, _l, val in g["dets"][t]:
